@@ -284,7 +284,7 @@ func (p *Program) collectWrites(e *Enc, fn *ssa.Function, w map[string]bool, see
 		return
 	}
 	seen[fn] = true
-	if fn.Blocks == nil {
+	if fn.Blocks == nil || (fn.Pkg != p.Pkg && !(fn.Parent() != nil && fn.Parent().Pkg == p.Pkg)) {
 		// extern: from contract modifies
 		if c := p.CS.Funcs[p.fnName(fn)]; c != nil {
 			for _, m := range c.Modifies {
@@ -400,6 +400,35 @@ func (p *Program) implementers(iface types.Type, m *types.Func) []*ssa.Function 
 				out = append(out, f)
 			}
 			break
+		}
+	}
+	return out
+}
+
+// implementingTypes: the named types of the package (T or *T) that implement the interface.
+func (p *Program) implementingTypes(iface types.Type) []types.Type {
+	it, ok := iface.Underlying().(*types.Interface)
+	if !ok {
+		return nil
+	}
+	var out []types.Type
+	var names []string
+	for n := range p.Pkg.Members {
+		names = append(names, n)
+	}
+	sort.Strings(names)
+	for _, n := range names {
+		tm, ok := p.Pkg.Members[n].(*ssa.Type)
+		if !ok {
+			continue
+		}
+		if _, isI := tm.Type().Underlying().(*types.Interface); isI {
+			continue
+		}
+		if types.Implements(tm.Type(), it) {
+			out = append(out, tm.Type())
+		} else if types.Implements(types.NewPointer(tm.Type()), it) {
+			out = append(out, types.NewPointer(tm.Type()))
 		}
 	}
 	return out
